@@ -489,6 +489,9 @@ impl Sess {
             if let Some(r) = crate::c_run::eval_line(ws) {
                 return r;
             }
+            if let Some(r) = crate::c_asm::eval_line(ws) {
+                return r;
+            }
         }
         let m = &mut self.m;
         let ok = || "ok".to_string();
